@@ -1,6 +1,7 @@
 import SwimVerif.Driver
 import SwimVerif.Model.Envelope
 import SwimVerif.Model.Routing
+import SwimVerif.Model.RoutingMon
 
 namespace SwimVerif.Machines.C11
 open SwimVerif
@@ -25,9 +26,9 @@ def c11route : Machine where
   σ := Routing.St
   init := Routing.init
   step := fun s line => Routing.stepLine s line
-  μ := Unit
-  minit := ()
-  mstep := fun m _ _ => (m, none)
+  μ := Routing.Mon
+  minit := {}
+  mstep := fun m line out => m.step line out
 
 def machines : List (String × Machine) := [("c11pure", c11pure), ("c11route", c11route)]
 
